@@ -73,6 +73,16 @@ def placeholder_items():
           Variant("S5", "named", [Field("usize", "w"), Field("usize", "p"), Field("String", "bb")], [tos("{bb:>w$.p$}|{LIMIT:03}")]),
           Variant("S6", "named", [Field("u8", "a")], [tos("{a} of {LIMIT}")])]
     items.append(Item("E", sv))
+    # the braces of a placeholder may be WRITTEN as escapes (\x7b0\x7d is {0}): what counts is the value of the literal
+    def styled(text, style):
+        m_ = tos(text)
+        m_.style = style
+        return m_
+    esc = []
+    for j, sty in enumerate(("xesc", "uesc", "raw", "xesc")):
+        esc.append(Variant("XN%d" % j, "named", [Field("u8", "f"), Field("String", "bb")], [styled("v%d={f} / {bb:>4}" % j, sty)]))
+        esc.append(Variant("XT%d" % j, "tuple", [Field("u8"), Field("i32")], [styled("t%d={0}-{1:03}" % j, sty)]))
+    items.append(Item("E", esc))
     nodata = Item("E", [Variant("U1", "unit"), Variant("T0", "tuple", [], [tos("after {LIMIT}{UNIT}")]), Variant("S0", "named", [], [tos("[{LIMIT:>5}]")]),
                         Variant("U2", "unit", [], [tos("two")])], metas=[EM("cis")])
     nodata.family = "no-data-variants"
